@@ -273,50 +273,62 @@ def run(ctx):
                 dfs(n)
         rep.ob('R12.5', 'crate-local call graph is acyclic', not cyc, str([(S.bodies[a]['generic_path'][-50:], S.bodies[b_]['generic_path'][-50:]) for a, b_ in cyc][:3]), '', sn)
         # ---- R12.6 narrowing casts, R12.7 dropped results
-        for b in S.bodies.values():
-            if b['crate'] != 'opaque_ke':
-                continue
-            reads = set()
-            for bb in b['blocks']:
-                for st in bb['stmts']:
-                    if st['k'] == 'assign':
-                        _collect_reads(st['rv'], reads)
-                        for pe in st['place']['p']:
-                            if pe[0] == 'index':
-                                reads.add(pe[1])
-                        if st['place']['p']:
-                            pass
-                t = bb['term']
-                if t['k'] == 'call':
-                    for a in t['args']:
-                        _op_reads(a, reads)
-                elif t['k'] == 'switch':
-                    _op_reads(t['discr'], reads)
-                elif t['k'] == 'assert':
-                    _op_reads(t['cond'], reads)
-            for bb in b['blocks']:
-                if bb['cleanup']:
-                    continue
-                for st in bb['stmts']:
-                    if st['k'] == 'assign' and st['rv'].get('k') == 'cast' and st['rv'].get('kind', '').startswith('IntToInt'):
-                        fr, to = st['rv']['from'], st['rv']['to']
-                        width = {'u8': 8, 'u16': 16, 'u32': 32, 'u64': 64, 'usize': 64, 'u128': 128, 'i32': 32, 'isize': 64, 'i64': 64, 'i8': 8, 'i16': 16}
-                        if width.get(to, 64) < width.get(fr, 0) and st['rv']['op']['k'] != 'const':
-                            rep.ob('R12.6', 'no narrowing cast of a non-constant in %s' % b['generic_path'].replace('opaque_ke::', '')[:80], False,
-                                   'cast %s -> %s of a runtime value (a length above the target range would wrap instead of being refused)' % (fr, to), core.rel(st.get('span', '')), sn)
-                t = bb['term']
-                if t['k'] == 'call' and not t['dest']['p'] and t.get('t') is not None:
-                    dty = b['locals'][t['dest']['l']]['ty']
-                    if (dty.startswith('std::result::Result<') or dty.startswith('core::result::Result<')) and t['dest']['l'] not in reads and t['dest']['l'] != 0:
-                        if not t.get('span', '').endswith('!'):
-                            rep.ob('R12.7', 'no fallible call whose result is never read in %s' % b['generic_path'].replace('opaque_ke::', '')[:80], False,
-                                   'result of %s is dropped' % interp.callee_key(t['callee']), core.rel(t.get('span', '')), sn)
+        for gp, kind, detail, span in casts_and_drops(S, 'opaque_ke'):
+            if kind == 'cast':
+                rep.ob('R12.6', 'no narrowing cast of a non-constant in %s' % gp.replace('opaque_ke::', '')[:80], False, detail, core.rel(span), sn)
+            else:
+                rep.ob('R12.7', 'no fallible call whose result is never read in %s' % gp.replace('opaque_ke::', '')[:80], False, detail, core.rel(span), sn)
+    import os, facts
+    if os.path.isdir(facts.FIXTURES):
+        from rules import fixtures
+        rep.extra['fixture_selftest_casts_drops'] = fixtures.selftest_casts_drops(ctx)
     ns = len(ctx.suite_names)
     rep.floor('R12.2', 'assert obligations evaluated', tot_assert, 100 * ns)
     rep.floor('R12.2', 'slice / copy obligations evaluated', tot_slice, 60 * ns)
     from rules import profile
     profile.check(ctx, rep, 'R12.P', list(API) + [tp + '::deserialize' for tp in DECODERS.values()])
     return rep
+
+
+def casts_and_drops(S, crate):
+    """[(generic_path, 'cast'|'drop', detail, span)] for narrowing casts of run-time values and fallible results never read"""
+    import interp
+    out = []
+    width = {'u8': 8, 'u16': 16, 'u32': 32, 'u64': 64, 'usize': 64, 'u128': 128, 'i32': 32, 'isize': 64, 'i64': 64, 'i8': 8, 'i16': 16}
+    for b in S.bodies.values():
+        if b['crate'] != crate:
+            continue
+        reads = set()
+        for bb in b['blocks']:
+            for st in bb['stmts']:
+                if st['k'] == 'assign':
+                    _collect_reads(st['rv'], reads)
+                    for pe in st['place']['p']:
+                        if pe[0] == 'index':
+                            reads.add(pe[1])
+            t = bb['term']
+            if t['k'] == 'call':
+                for a in t['args']:
+                    _op_reads(a, reads)
+            elif t['k'] == 'switch':
+                _op_reads(t['discr'], reads)
+            elif t['k'] == 'assert':
+                _op_reads(t['cond'], reads)
+        for bb in b['blocks']:
+            if bb['cleanup']:
+                continue
+            for st in bb['stmts']:
+                if st['k'] == 'assign' and st['rv'].get('k') == 'cast' and st['rv'].get('kind', '').startswith('IntToInt'):
+                    fr, to = st['rv']['from'], st['rv']['to']
+                    if width.get(to, 64) < width.get(fr, 0) and st['rv']['op']['k'] != 'const':
+                        out.append((b['generic_path'], 'cast', 'cast %s -> %s of a runtime value (a length above the target range would wrap instead of being refused)' % (fr, to), st.get('span', '')))
+            t = bb['term']
+            if t['k'] == 'call' and not t['dest']['p'] and t.get('t') is not None:
+                dty = b['locals'][t['dest']['l']]['ty']
+                if (dty.startswith('std::result::Result<') or dty.startswith('core::result::Result<')) and t['dest']['l'] not in reads and t['dest']['l'] != 0:
+                    if not t.get('span', '').endswith('!'):
+                        out.append((b['generic_path'], 'drop', 'result of %s is dropped' % interp.callee_key(t['callee']), t.get('span', '')))
+    return out
 
 
 def _enclosing(S, span):
